@@ -456,8 +456,9 @@ def drive_fifo(prog: dict, faults: dict | None = None, observe: dict | None = No
     run = EvRun(prog, "evfifo", faults)
     try:
         run.start()
-        if "crash_at" in faults:
-            run.crash_at = {faults["crash_at"]}
+        if "crash_at" in faults:      # one kill point, or a list of them (the later ones may fall into the recovery)
+            ca = faults["crash_at"]
+            run.crash_at = set(ca) if isinstance(ca, (list, tuple)) else {ca}
         status = None
         for _round in range(3):
             crashed = run.run_protected(lambda: run.drain(max_steps))
@@ -852,7 +853,7 @@ def trace_jobs(pid: str, tier: str, seed: int, refs: dict[str, dict], core_: lis
     jobs: list[dict] = []
     thorough = tier == "thorough"
     if pid == "C12":
-        nsched = 60 if thorough else 16
+        nsched = 100 if thorough else 16
         for p in core_ + extra_:
             obs = {"prefixes": True, "snapshots": "all" if thorough else "some", "seed": seed}
             seeds = [rng.randrange(1, 10 ** 6) for _ in range(nsched)]
@@ -889,6 +890,12 @@ def trace_jobs(pid: str, tier: str, seed: int, refs: dict[str, dict], core_: lis
         if thorough:
             for grp in chunks(pts, 10):
                 jobs.append({"kind": "fifo", "prog": p, "faults": [{"crash_at": k} for k in grp], "sweeps": 2})
+            pairs = []
+            for _ in range(24):           # two kills: the second one up to 25 commits after the first (recovery included)
+                k1 = rng.randrange(1, m["commits"] + 1)
+                pairs.append({"crash_at": [k1, k1 + rng.randrange(1, 26)]})
+            for grp in chunks(pairs, 8):
+                jobs.append({"kind": "fifo", "prog": p, "faults": grp})
             combos = [{"exc_after_append": [k, kind], "crash_at": rng.randrange(1, m["commits"] + 1)}
                       for k in range(1, m["appends_txn"] + 1) for kind in ("perm", "transient")]
             for grp in chunks(combos, 10):
@@ -927,7 +934,7 @@ def flag_and_revalidate(traces: list[dict], rejected: list[tuple[int, int]], pro
     """DESIGN 5: a rejected trace is re-submitted with the unexplained line flagged (d = 1, the logged state is
     adopted) so that the property formulas keep being evaluated on the rest of it.  Returns the extra
     formula failures found that way: list of {trace, at, formula}."""
-    extra: list[dict] = []
+    found: dict[int, list[dict]] = {}
     pending = dict(rejected)
     copies = {i: json.loads(json.dumps(traces[i])) for i in pending}
     for _ in range(rounds):
@@ -942,9 +949,11 @@ def flag_and_revalidate(traces: list[dict], rejected: list[tuple[int, int]], pro
         if v.machinery:
             break
         pending = {ids[r["trace"]]: r["at"] for r in v.rejected}
-        last_failed = [{"trace": ids[f["trace"]], "at": f["at"], "formula": f["formula"]} for f in v.failed]
-        extra = last_failed
-    return extra
+        for i in ids:                      # the latest pass over a trace is the one that got furthest
+            found[i] = []
+        for f in v.failed:
+            found[ids[f["trace"]]].append({"trace": ids[f["trace"]], "at": f["at"], "formula": f["formula"]})
+    return [f for fs in found.values() for f in fs]
 
 
 def corruptions(trace: dict) -> list[tuple[str, dict]]:
